@@ -93,6 +93,8 @@ type Scenario struct {
 	Timeout    time.Duration     `json:"timeout,omitempty"` // WithTimeout (0: the default)
 	Hang       bool              `json:"hang,omitempty"`    // the collector never answers
 	proxy      func(*http.Request) (*url.URL, error) // WithProxy (transport error injection)
+	SlowReply  bool              `json:"slow_reply,omitempty"` // the scripted reply arrives AFTER MaxElapsedTime on purpose (no "budget out of reach" precondition)
+	MaxInterval time.Duration    `json:"max_interval,omitempty"` // RetryConfig.MaxInterval (default: 4 * InitialInterval)
 	HookBefore bool              `json:"hook_before,omitempty"` // the cancellation happens before response CancelAt is written (deterministic), not after
 }
 
@@ -344,6 +346,9 @@ type exporter struct {
 func mkExporter(e int, endpoint string, sc *Scenario) (*exporter, error) {
 	ctx := context.Background()
 	maxInt := 4 * sc.Initial
+	if sc.MaxInterval > 0 {
+		maxInt = sc.MaxInterval
+	}
 	switch e {
 	case 0:
 		opts := []otlptracehttp.Option{otlptracehttp.WithEndpoint(endpoint), otlptracehttp.WithInsecure(),
@@ -578,7 +583,7 @@ func runScenario(sc *Scenario, watchdog time.Duration) (ob Obs, failure string, 
 		inconclusive = "the collector saw no request at all (connection not ready before the exporter's own timeout)"
 	case !sc.Timed && time.Duration(ob.Elapsed) > 8*time.Second:
 		inconclusive = "the export took more than 8 s of wall clock (an unloaded run needs at most ~2): a default 10 s request / export timeout may have interfered"
-	case !sc.Timed && sc.MaxElapsed > 0 && time.Duration(ob.Elapsed) > sc.MaxElapsed/2:
+	case !sc.Timed && !sc.SlowReply && sc.MaxElapsed > 0 && time.Duration(ob.Elapsed) > sc.MaxElapsed/2:
 		inconclusive = "the export took more than half of MaxElapsedTime of wall clock: the limit was meant to be out of reach"
 	case (sc.CancelAt >= 0 || sc.ShutdownAt >= 0) && !sc.HookBefore && time.Duration(c.hookLag.Load()) > 300*time.Millisecond:
 		inconclusive = "the harness needed more than 300 ms to issue the cancellation / shutdown after the response: it may have lost the race against the back-off timer"
@@ -1451,6 +1456,36 @@ func fixedCorpus() []Scenario {
 			sc.Kind = "over-limit"
 			out = append(out, sc)
 		}
+		// a SUCCESS (or a non-retry-able failure) that arrives after MaxElapsedTime is still what the export reports: the budget
+		// only decides whether to RETRY.  The collector sleeps 400 ms, the budget is 200 ms.
+		for _, first := range []bool{true, false} {
+			for _, ok := range []bool{true, false} {
+				sc := base(e)
+				sc.MaxElapsed = 200 * time.Millisecond
+				sc.SlowReply = true
+				sc.Kind = "slow-final"
+				var last Resp
+				switch {
+				case isHTTP(e) && ok:
+					last = Resp{Status: 200, DelayMs: 400}
+				case isHTTP(e):
+					last = Resp{Status: 400, DelayMs: 400}
+				case ok:
+					last = Resp{Code: 0, DelayMs: 400}
+				default:
+					last = Resp{Code: 3, DelayMs: 400}
+				}
+				if !first { // ... also as the second attempt, after a quick retry-able reply
+					if isHTTP(e) {
+						sc.Script = []Resp{{Status: 503}}
+					} else {
+						sc.Script = []Resp{{Code: 14}}
+					}
+				}
+				sc.Script = append(sc.Script, last)
+				out = append(out, sc)
+			}
+		}
 		// short MaxElapsedTime against a collector that never recovers
 		for i := 0; i < 2; i++ {
 			sc := base(e)
@@ -2033,6 +2068,131 @@ func main() {
 			w.Tally(fmt.Sprintf("partial-success:present=%v,rejected=%d,msg_bytes=%d->reports=%d", ps.Present, ps.Rejected, len(ps.Msg), reports))
 			w.Add(vgen.App("CPartial", vgen.N(uint64(e)), pinfo, vgen.N(uint64(ob.ErrClass)), vgen.N(uint64(reports))), desc, "partial-success-"+exporterNames[e], true)
 		}
+	}
+	// Context expiry with (almost) zero back-off intervals, MaxElapsedTime 0.  Run LAST: on the gRPC exporters the export
+	// never returns (known finding F-C14-3) and its goroutine keeps spinning until this process exits right after Flush.
+	type ctxCase struct {
+		e       int
+		initial time.Duration
+	}
+	var ctxCases []ctxCase
+	for e := 0; e < 6; e++ {
+		for _, ii := range []time.Duration{0, 1, 2, time.Millisecond} {
+			ctxCases = append(ctxCases, ctxCase{e, ii})
+		}
+	}
+	type ctxObs struct {
+		Attempts int    `json:"attempts"`
+		Returned bool   `json:"returned_within_5s_of_expiry"`
+		ErrClass int    `json:"err_class"`
+		Err      string `json:"err"`
+	}
+	cobs := make([]ctxObs, len(ctxCases))
+	var cwg sync.WaitGroup
+	for i, cc := range ctxCases {
+		cwg.Add(1)
+		go func(i int, cc ctxCase) {
+			defer cwg.Done()
+			defer func() { recover() }()
+			sc := &Scenario{Exporter: cc.e, Enabled: true, Initial: cc.initial, MaxElapsed: 0, MaxInterval: 30 * time.Second, Timed: true, CancelAt: -1, ShutdownAt: -1, Token: fmt.Sprintf("cxk%04dx", i)}
+			if isHTTP(cc.e) {
+				sc.Script = []Resp{{Status: 503}}
+			} else {
+				sc.Script = []Resp{{Code: 14}}
+			}
+			c := &collector{sc: sc, start: time.Now()}
+			endpoint, _, err := startCollector(c) // (not stopped: a spinning export may still hold the connection)
+			if err != nil {
+				return
+			}
+			x, err := mkExporter(cc.e, endpoint, sc)
+			if err != nil {
+				return
+			}
+			ctx, cancel := context.WithTimeout(context.Background(), 300*time.Millisecond)
+			defer cancel()
+			done := make(chan error, 1)
+			go func() { done <- x.export(ctx) }()
+			select {
+			case eerr := <-done:
+				cobs[i].Returned = true
+				cobs[i].ErrClass = errClass(eerr)
+				if eerr != nil {
+					cobs[i].Err = eerr.Error()
+					if len(cobs[i].Err) > 160 {
+						cobs[i].Err = cobs[i].Err[:160]
+					}
+				}
+			case <-time.After(300*time.Millisecond + 5*time.Second):
+			}
+			c.mu.Lock()
+			cobs[i].Attempts = len(c.arrivals)
+			c.mu.Unlock()
+		}(i, cc)
+	}
+	cwg.Wait()
+	for i, cc := range ctxCases {
+		ob := cobs[i]
+		if ob.Attempts == 0 {
+			inconclusive++
+			w.Tally("inconclusive:ctx-expiry")
+			continue
+		}
+		desc := map[string]any{"exporter": exporterNames[cc.e], "initial_interval_ns": int64(cc.initial), "max_elapsed": 0, "context_timeout_ms": 300, "observed": ob}
+		w.Tally(fmt.Sprintf("ctx-expiry:initial=%v,returned=%v", cc.initial, ob.Returned))
+		w.Add(vgen.App("CCtxExpiry", vgen.N(uint64(cc.e)), vgen.Z(int64(cc.initial)), vgen.Nat(ob.Attempts), vgen.Bool(ob.Returned), vgen.N(uint64(ob.ErrClass))),
+			desc, "ctx-expiry-"+exporterNames[cc.e], true)
+	}
+	// the same partial success on three consecutive exports of ONE exporter (nothing else in flight): each is reported
+	for e := 0; e < 6; e++ {
+		sc := &Scenario{Exporter: e, Enabled: true, Initial: 2 * time.Millisecond, MaxElapsed: 20 * time.Second, CancelAt: -1, ShutdownAt: -1, Token: fmt.Sprintf("prk%dx", e)}
+		ps := &PSpec{Present: true, Rejected: 4, Msg: "the same rejection every time"}
+		for i := 0; i < 3; i++ {
+			if isHTTP(e) {
+				sc.Script = append(sc.Script, Resp{Status: 200, PS: ps})
+			} else {
+				sc.Script = append(sc.Script, Resp{Code: 0, PS: ps})
+			}
+		}
+		c := &collector{sc: sc, start: time.Now()}
+		endpoint, stop, err := startCollector(c)
+		if err != nil {
+			w.Violation("collector: "+err.Error(), map[string]any{"exporter": exporterNames[e]})
+			continue
+		}
+		x, err := mkExporter(e, endpoint, sc)
+		if err != nil {
+			stop()
+			w.Violation("exporter construction: "+err.Error(), map[string]any{"exporter": exporterNames[e]})
+			continue
+		}
+		var errs, reps []string
+		var repN []int
+		okRun := true
+		for i := 0; i < 3; i++ {
+			before := countPS()
+			ectx, ecancel := context.WithTimeout(context.Background(), 20*time.Second)
+			eerr := x.export(ectx)
+			ecancel()
+			errs = append(errs, vgen.N(uint64(errClass(eerr))))
+			reps = append(reps, vgen.N(uint64(countPS()-before)))
+			repN = append(repN, countPS()-before)
+		}
+		sctx, scancel := context.WithTimeout(context.Background(), 5*time.Second)
+		x.shutdown(sctx)
+		scancel()
+		c.mu.Lock()
+		okRun = len(c.arrivals) == 3
+		c.mu.Unlock()
+		stop()
+		if !okRun { // a request was retried or did not arrive: not the scenario
+			inconclusive++
+			w.Tally("inconclusive:partial-success-repeat")
+			continue
+		}
+		w.Tally(fmt.Sprintf("partial-success-repeat:reports=%v", repN))
+		w.Add(vgen.App("CPartialRepeat", vgen.N(uint64(e)), vgen.List(errs), vgen.List(reps)),
+			map[string]any{"exporter": exporterNames[e], "consecutive_exports": 3, "partial_success": ps, "reports_per_export": repN}, "partial-success-repeat-"+exporterNames[e], true)
 	}
 	w.Extra["inconclusive"] = inconclusive
 	if err := w.Flush(); err != nil {
